@@ -6,30 +6,12 @@
    Then: generic facts on trim / middle / common_prefix_len (any eqb), and the string-level corollaries on
    ScriptModel.str_script (spells both strings, cost = sum of the character operations). *)
 From Coq Require Import ZArith List Bool Lia.
-Require Import GT.PyBase GT.Data GT.ScriptSpec GT.EdEngine GT.ScriptModel.
+Require Import GT.PyBase GT.Data GT.ScriptSpec GT.EdEngine GT.EdFacts GT.ScriptModel.
 Import ListNotations.
 Open Scope Z_scope.
 
 (* ---------------------------------------------------------------- definitions *)
-Definition dims_ok (rc ic : list Z) (mcs : list (list Z)) : Prop :=
-  length mcs = length ic /\ Forall (fun row => length row = length rc) mcs.
-
-Definition op_from (o : op) : list nat := match o with OMatch c _ => [c] | ORem c => [c] | OIns _ => [] end.
-Definition op_to (o : op) : list nat := match o with OMatch _ r => [r] | OIns r => [r] | ORem _ => [] end.
-Definition op_cost (rc ic : list Z) (mcs : list (list Z)) (o : op) : Z :=
-  match o with
-  | ORem c => nth c rc 0
-  | OIns r => nth r ic 0
-  | OMatch c r => nth c (nth r mcs []) 0
-  end.
-
-Definition op_in_range (rc ic : list Z) (o : op) : Prop :=
-  match o with
-  | OMatch c r => (c < length rc)%nat /\ (r < length ic)%nat
-  | ORem c => (c < length rc)%nat
-  | OIns r => (r < length ic)%nat
-  end.
-
+(* dims_ok, op_from, op_to, op_cost, op_in_range: GT.EdFacts *)
 Definition op_diag_strict (rc ic : list Z) (mcs : list (list Z)) (o : op) : Prop :=
   match o with
   | OMatch c r => nth c (nth r mcs []) 0 < nth r ic 0 /\ nth c (nth r mcs []) 0 < nth c rc 0
@@ -320,25 +302,22 @@ Section Cells.
     unfold final_cost. rewrite (trace_cost _ _ _ alignment_trace), map_rev, zsum_rev. reflexivity.
   Qed.
 
-  Lemma alignment_in_range :
-    Forall (fun o => match o with
-                     | OMatch c r => (c < length rc)%nat /\ (r < length ic)%nat
-                     | ORem c => (c < length rc)%nat
-                     | OIns r => (r < length ic)%nat
-                     end) (alignment rc ic mcs).
+  Lemma alignment_in_range : Forall (op_in_range rc ic) (alignment rc ic mcs).
   Proof.
     pose proof (trace_range _ _ _ alignment_trace) as (_ & _ & H).
     apply Forall_rev in H. rewrite rev_involutive in H. exact H.
   Qed.
 
-  Lemma diag_strict :
-    Forall (fun o => match o with
-                     | OMatch c r => nth c (nth r mcs []) 0 < nth r ic 0 /\ nth c (nth r mcs []) 0 < nth c rc 0
-                     | _ => True
-                     end) (alignment rc ic mcs).
+  Lemma diag_strict_all : Forall (op_diag_strict rc ic mcs) (alignment rc ic mcs).
   Proof.
     pose proof (trace_diag _ _ _ alignment_trace) as H.
     apply Forall_rev in H. rewrite rev_involutive in H. exact H.
+  Qed.
+
+  Lemma diag_strict : forall c r, In (OMatch c r) (alignment rc ic mcs) ->
+    nth c (nth r mcs []) 0 < nth r ic 0 /\ nth c (nth r mcs []) 0 < nth c rc 0.
+  Proof.
+    intros c r H. pose proof diag_strict_all as F. rewrite Forall_forall in F. exact (F _ H).
   Qed.
 
   (* every cell of the matrix is the end of a path whose step costs sum to the cell's cost *)
@@ -623,7 +602,7 @@ Proof.
   rewrite (map_ext_in (fun x => sop_cost (sop_of (middle p q s) (middle p q t) x))
                       (op_cost (str_rc (middle p q s)) (str_rc (middle p q t)) (str_mcs (middle p q s) (middle p q t)))).
   - lia.
-  - intros o Ho. apply sop_of_cost. specialize (R o Ho). destruct o; exact R.
+  - intros o Ho. apply sop_of_cost. exact (R o Ho).
 Qed.
 
 Example str_script_example :
